@@ -331,10 +331,10 @@ def obligations(tier, seed):
     for kind, name, quat in sorted(set(cfgs)):
         nm = "C20/%s.%s.%s" % (kind, name, quat)
         obs.append((nm, (lambda nm=nm, kind=kind, name=name, quat=quat: run_e2(
-            nm, ["s", "tx", "ty", "tz"], make_body(kind, name, quat), positive=["s"], pre=lambda V: [V["s"] >= F(1, 100), V["s"] <= 100],
+            nm, ["s", "tx", "ty", "tz"], make_body(kind, name, quat), positive=["s"], pre=lambda V: [V["s"] >= F(1, 10**5), V["s"] <= 10**5],
             first_sample=first, functions=fns, max_paths=(3 if tier == "quick" else 8), budget_s=(200 if tier == "quick" else 900), rtol=1e-12,
             stubs=["qhull / kabsch contract stubs", "str(coordinate) -> token"],
-            bounds="%s %s placed by free scale in [1e-2,1e2], free translation, rotation %s; all seven writers; path budget" % (kind, name, quat)))))
+            bounds="%s %s placed by free scale in [1e-5,1e5], free translation, rotation %s; all seven writers; path budget" % (kind, name, quat)))))
     for c in ("save_unknown_type_raises", "save_dispatch"):
         obs.append(("C20/E1." + c, (lambda c=c: run_crosshair("C20/E1." + c, "C20_dispatch.py", c, timeout_s=(60 if tier == "quick" else 200),
                                                                 bounds="CrossHair: symbolic file-type string (len <= 4) / index of the seven types"))))
